@@ -155,15 +155,11 @@ func jsonAddKeyElements(s Entry, dict map[string]any) {
 	parentSchema, levelsUp := s.GetFirstAncestorWithSchema()
 	// from the parent we get the keys as slice
 	schemaKeys := parentSchema.GetSchemaKeys()
-	var treeElem Entry = s
-	// the keys do match the levels up in the tree in reverse order
-	// hence we init i with levelUp and count down
-	for i := levelsUp - 1; i >= 0; i-- {
+	for k, v := range keyLevelValues(s, schemaKeys, levelsUp) {
 		// skip if the element already exists
-		if _, exists := dict[schemaKeys[i]]; !exists {
+		if _, exists := dict[k]; !exists {
 			// and finally we create the patheleme key attributes
-			dict[schemaKeys[i]] = treeElem.PathName()
-			treeElem = treeElem.GetParent()
+			dict[k] = v
 		}
 	}
 }
